@@ -302,29 +302,37 @@ func runC10(tier, replay string) int {
 		fmt.Println("replay: no violation")
 		return 0
 	}
-	shard, nsh := common.ShardInfo()
+	_, nsh := common.ShardInfo()
 	type plan struct {
-		ops    []c10op
-		depth  int
-		twoDom bool
+		ops      []c10op
+		from, to int   // history lengths
+		bound    int   // preemption bound, -1 = unbounded
+		maxE     int64 // cap on schedules per history for an unbounded search (0 = none)
+		fallback int   // bound completed instead when the cap is hit
+		twoDom   bool
 	}
-	plans := []plan{{ops, depth, false}}
+	var plans []plan
 	if tier == "thorough" {
-		plans = append(plans, plan{ops2, 4, true})
+		plans = []plan{
+			{ops, 1, 4, -1, 150000, 4, false}, // every interleaving for the histories the quick tier bounds
+			{ops, 5, 5, 3, 0, 0, false},       // one step deeper at the quick tier's bound
+			{ops2, 1, 3, -1, 150000, 4, true},
+			{ops2, 4, 4, 3, 0, 0, true},
+		}
 	} else {
-		plans = append(plans, plan{ops2, 3, true})
+		plans = []plan{{ops, 1, 4, 3, 0, 0, false}, {ops2, 1, 3, 3, 0, 0, true}}
 	}
 	if nsh > 0 {
 		res := c10res{}
 		outcomes := map[uint64]bool{}
-		for _, pl := range plans {
+		for pi, pl := range plans {
 			N := len(pl.ops)
-			for L := 1; L <= pl.depth; L++ {
+			for L := pl.from; L <= pl.to; L++ {
 				total := 1
 				for i := 0; i < L; i++ {
 					total *= N
 				}
-				cnt := 0
+				cnt, mine := 0, false
 				for n := 0; n < total; n++ {
 					h := make([]int, L)
 					x := n
@@ -337,19 +345,18 @@ func runC10(tier, replay string) int {
 					}
 					// only histories that end with something observable after a template exists are worth exploring at depth < max; all are run anyway
 					cnt++
-					if cnt%nsh != shard {
+					if cnt%8 == 1 {
+						mine = common.Claim(fmt.Sprintf("p%d-L%d-%d", pi, L, cnt/8), cnt/8)
+					}
+					if !mine {
 						continue
 					}
 					sc := c10Scenario(pl.ops, h)
-					bound, maxE := 3, int64(0)
-					if tier == "thorough" {
-						bound, maxE = -1, 400000
-					}
-					c := vsched.Explore(sc, vsched.ExploreConfig{Bound: bound, MaxExecs: maxE})
+					c := vsched.Explore(sc, vsched.ExploreConfig{Bound: pl.bound, MaxExecs: pl.maxE})
 					if c.Capped != "" && len(c.Problems) == 0 {
 						// too many interleavings for this history: fall back to a complete bounded search
-						c2 := vsched.Explore(sc, vsched.ExploreConfig{Bound: 4})
-						c2.Capped = "unbounded search capped at 400000 schedules; preemption bound 4 completed instead"
+						c2 := vsched.Explore(sc, vsched.ExploreConfig{Bound: pl.fallback})
+						c2.Capped = fmt.Sprintf("unbounded search capped at %d schedules; preemption bound %d completed instead", pl.maxE, pl.fallback)
 						c = c2
 					}
 					res.Histories++
@@ -453,7 +460,7 @@ func runC10(tier, replay string) int {
 	ev.Coverage = common.Coverage{
 		"states": tot.Points, "transitions": tot.Steps, "traces_validated_against_impl": tot.Execs, "samples": samples,
 		"evaluations": tot.Execs, "distinct_nontrivial": tot.Histories,
-		"rule":       fmt.Sprintf("every history (reduced by id/domain symmetry) up to depth %d over {template, replacement template, bad template, data} x 2 ids x 1 domain + Adv(1), Adv(2) (and to a smaller depth over 2 domains) on a UDP collector with TTL=2 built through the normal constructor (its clock virtualised by the rewrite); for each history every interleaving of timer firings and expiry callbacks with the driver is explored up to 3 preemptions (quick) / without bound (thorough; histories with more than 400000 schedules fall back to bound 4 and are listed in caps_hit); oracle: data accepted while now < lastRefresh+TTL, rejected when no template is in force, stored <=> alive at quiescence, and at every scheduling point with the lock free each stored template has an armed timer or a callback in flight and no removed template keeps an armed timer; in-model data-race detection. distinct_nontrivial = histories explored; states = choice points", depth),
+		"rule":       fmt.Sprintf("every history (reduced by id/domain symmetry) up to depth %d over {template, replacement template, bad template, data} x 2 ids x 1 domain + Adv(1), Adv(2) (and to a smaller depth over 2 domains) on a UDP collector with TTL=2 built through the normal constructor (its clock virtualised by the rewrite); for each history every interleaving of timer firings and expiry callbacks with the driver is explored up to 3 preemptions (quick); thorough explores the quick tier's histories (depth <= 4, two domains <= 3) without a preemption bound (a history with more than 150000 schedules falls back to a completed bound 4 and is listed in caps_hit) and the next depth at bound 3; oracle: data accepted while now < lastRefresh+TTL, rejected when no template is in force, stored <=> alive at quiescence, and at every scheduling point with the lock free each stored template has an armed timer or a callback in flight and no removed template keeps an armed timer; in-model data-race detection. distinct_nontrivial = histories explored; states = choice points", depth),
 		"exhaustive": len(tot.Capped) == 0, "histories": tot.Histories, "max_choice_depth": tot.MaxDepth, "caps_hit": tot.Capped,
 	}
 	ev.Assumptions = []string{"at now >= lastRefresh+TTL a data set may be accepted or refused until the expiry has been processed", "timer semantics follow the Go documentation (Stop/Reset return values, callback in a fresh goroutine)"}
